@@ -28,6 +28,7 @@ type Program struct {
 	BySSA   map[*ssa.Function]*FuncInfo
 	ModPath string
 	NFiles  int
+	Skip    map[*FuncInfo]bool // functions not analysed standalone on the current view (new helpers walked through at their call sites)
 }
 
 // FuncInfo ties a source function to its SSA form.
@@ -254,7 +255,7 @@ func (P *Program) FuncsOfPkg(rel string) []*FuncInfo {
 	p := P.PkgByRel(rel)
 	var out []*FuncInfo
 	for _, f := range P.Funcs {
-		if f.Pkg == p {
+		if f.Pkg == p && !P.Skip[f] {
 			out = append(out, f)
 		}
 	}
